@@ -660,6 +660,17 @@ pub fn run_files(which: &str, tier: &str, seed: u64, model: &Model, corpus_lines
         let c = OFCase { recs, k, norm, header: rng.chance(1, 2), delim: rng.pick(&delims).clone(), threads, path, container, sched };
         run_one(&c, "random", &mut rep, &mut exp, &mut traces, &mut branching);
     }
+    // (2a) one record with more than a million windows and three k-mers seen once: frequencies just below 1e-6 sit between
+    // the rounding thresholds of the 6-decimal text (0.0000005 rounds up to 0.000001), where shortcuts for "tiny" values go wrong
+    for path in ["mmap".to_string(), format!("batch:{}", 4usize << 30)] {
+        let n = rng.range(1_050_000, 1_300_000) as usize;
+        let mut s = vec![b'A'; n];
+        s[n / 3] = b'C';
+        s[2 * n / 3] = b'G';
+        let recs = vec![gen::clean_seq(&mut rng, 40, gen::Flavor::Uniform), s];
+        let c = OFCase { recs, k: 3, norm: true, header: false, delim: b" ".to_vec(), threads: 2, path, container: "fa".into(), sched: "free".into() };
+        run_one(&c, "long-record", &mut rep, &mut exp, &mut traces, &mut branching);
+    }
     // (2b) many records in one batch / one mapping with several threads
     for path in ["mmap".to_string(), format!("batch:{}", 4usize << 30)] {
         let n = rng.range(2200, 3000) as usize;
